@@ -198,6 +198,17 @@ def run(ctx):
                 viol.append({'property': 'C14', 'kind': 'load-applies-typed-flags', 'saved_flags': fl, 'typed_with_load': typed,
                              'first_run_lines': o1.count(b'\n'), 'resumed_lines': o3.count(b'\n'),
                              'witness': {'spec': spec, 'cli': fl, 'typed': typed}})
+        # two sessions on one ruleset whose names differ after the last dot only, started with different flags one after the other:
+        # `--load` of the first one runs with the first one's flags
+        if i == 0:
+            oa, _, _ = common.run_cli('pcfg_guesser.py', ['-r', name, '-s', 'c14night.1', '--skip_brute', '--all_lower'], stdin='pipe-open')
+            ob, _, _ = common.run_cli('pcfg_guesser.py', ['-r', name, '-s', 'c14night.2'], stdin='pipe-open')
+            oc, _, _ = common.run_cli('pcfg_guesser.py', ['-s', 'c14night.1', '--load'], stdin='pipe-open')
+            cli_runs += 3
+            if oc != oa:
+                viol.append({'property': 'C14', 'kind': 'load-ignores-saved-flags', 'flags': ['--skip_brute', '--all_lower'],
+                             'history': 'another session (name differing after the last dot) was started in between',
+                             'first_run_lines': oa.count(b'\n'), 'resumed_lines': oc.count(b'\n'), 'witness': {'spec': spec, 'cli': ['--skip_brute', '--all_lower'], 'dotted_names': True}})
     cases += cli_runs
     if ctx.driver_ok:
         out = common.run_driver(ops)
